@@ -177,7 +177,10 @@ class UdpInverterProtocol(InverterProtocol, asyncio.DatagramProtocol):
     def error_received(self, exc: Exception) -> None:
         """On error received"""
         logger.debug("Received error: %s", exc)
-        self.response_future.set_exception(exc)
+        try:
+            self.response_future.set_exception(exc)
+        except asyncio.InvalidStateError:
+            logger.debug("Request already completed, error ignored.")
         self._retry = 0
         self._close_transport()
 
@@ -326,7 +329,10 @@ class TcpInverterProtocol(InverterProtocol, asyncio.Protocol):
     def error_received(self, exc: Exception) -> None:
         """On error received"""
         logger.debug("Received error: %s", exc)
-        self.response_future.set_exception(exc)
+        try:
+            self.response_future.set_exception(exc)
+        except asyncio.InvalidStateError:
+            logger.debug("Request already completed, error ignored.")
         self._retry = 0
         self._close_transport()
 
